@@ -4,6 +4,7 @@
 export GOFLAGS=-mod=mod GOPROXY=off GOSUMDB=off GOTOOLCHAIN=local
 patch=$(readlink -f "$1"); shift
 cd /verif || exit 2
+exec 9>/tmp/repo.lock; flock 9   # (see tools/thorough_sweep.sh)
 [ -n "$(git -C /repo status --porcelain)" ] && { echo "/repo not clean"; exit 2; }
 git -C /repo apply "$patch" || { echo "patch does not apply"; exit 2; }
 trap 'git -C /repo checkout -q -- . ; git -C /repo clean -fdq' EXIT
